@@ -18,6 +18,10 @@ func MinU64(a uint64, b uint64) uint64 {
 
 // The largest integer x such that x**2 is less than or equal to n.
 func IntegerSquareroot(n uint64) uint64 {
+	if n == math.MaxUint64 {
+		// (x + 1) would overflow, and the loop would then divide by zero
+		return math.MaxUint32
+	}
 	x := n
 	y := (x + 1) >> 1
 	for y < x {
